@@ -7,10 +7,12 @@ def side(ref):
     except Exception:
         return {}
 ours, theirs = side("HEAD"), side("MERGE_HEAD")
+# same id on both sides: the merged-in branch is the newer edit of that entry
+newer = {f["id"]: f for f in theirs.get("findings", [])}
 out, seen = [], set()
 for f in ours.get("findings", []) + theirs.get("findings", []):
     if f["id"] not in seen:
-        seen.add(f["id"]); out.append(f)
+        seen.add(f["id"]); out.append(newer.get(f["id"], f))
 fixed = list(dict.fromkeys(ours.get("fixed", []) + theirs.get("fixed", [])))
 closed = list(dict.fromkeys(ours.get("closed_ids", []) + theirs.get("closed_ids", [])))
 out = [f for f in out if f["id"] not in closed]
